@@ -848,6 +848,9 @@ class Engine:
             self.assume(k <= seq.n)
         for name, inv in spec.invariants:
             self.assume(self.spec_eval(inv, env, old_env=self.entry_env0, extra={"entry": entry_env}))
+        for name, hyp in getattr(spec, "head_assumptions", []):
+            self.assume(self.spec_eval(hyp, env, old_env=self.entry_env0, extra={"entry": entry_env}))
+            self.trusted_used.add(f"assumed at the head of loop {ordinal}: {name}")
         which = self.choose_nd(2)
         if which == 0:
             # ---- one more iteration
@@ -881,6 +884,8 @@ class Engine:
         self.ex_block(node.orelse)
 
     def havoc_like(self, v, name):
+        if isinstance(v, LoggerObj):
+            return v            # loggers / progress bars carry no verified state
         try:
             t = type_of(v)
         except Unsupported:
@@ -1622,9 +1627,11 @@ class Engine:
         i = z3.Int(f"_c{node.lineno}_{node.col_offset}")
         saved = dict(self.frame.env)
         self.assign(g.target, slist_get(xs, i))
-        n_dec = len(self.decisions)
+        n_alt, n_pc = len(self.alternatives), len(self.pc)
+        self.pc.append(z3.And(0 <= i, i < xs.n))        # the element expression is only ever evaluated for positions of the list
         val = self.ev(node.elt)
-        if len(self.decisions) != n_dec:
+        del self.pc[n_pc:]
+        if len(self.alternatives) != n_alt:
             raise Unsupported("branching inside a comprehension over symbolic data")
         self.frame.env.clear()
         self.frame.env.update(saved)
